@@ -13,6 +13,7 @@ import (
 	"bufio"
 	"bytes"
 	"context"
+	"crypto/tls"
 	"crypto/sha1"
 	"encoding/base64"
 	"fmt"
@@ -180,6 +181,57 @@ func init() {
 			cls = "nodial:" + b2s(err != nil)
 		}
 		return fmt.Sprintf("%s net=%s addr=%s tlshost=%s scheme=%s uhost=%s", cls, network, hx([]byte(addr)), tlshost, scheme, uhost)
+	}
+	// dialtls <urlhex> <nil|empty|named:<hex>> : a wss dial through the library's own TLS set-up; the far end
+	// of the connection reads the ClientHello and reports the server name the session was requested for.
+	ops["dialtls"] = func(a []string) string {
+		raw := string(unhx(a[0]))
+		var cfg *tls.Config
+		switch {
+		case a[1] == "empty":
+			cfg = &tls.Config{}
+		case strings.HasPrefix(a[1], "named:"):
+			cfg = &tls.Config{ServerName: string(unhx(a[1][6:]))}
+		}
+		sni, addr := "-", "-"
+		done := make(chan struct{})
+		d := ws.Dialer{
+			NetDial: func(ctx context.Context, n, ad string) (net.Conn, error) {
+				addr = hx([]byte(ad))
+				c1, c2 := net.Pipe()
+				go func() {
+					defer close(done)
+					defer c2.Close()
+					c2.SetDeadline(time.Now().Add(2 * time.Second))
+					srv := tls.Server(c2, &tls.Config{GetConfigForClient: func(chi *tls.ClientHelloInfo) (*tls.Config, error) {
+						sni = hx([]byte(chi.ServerName))
+						return nil, fmt.Errorf("enough")
+					}})
+					srv.Handshake()
+				}()
+				return c1, nil
+			},
+			TLSConfig: cfg,
+			Timeout:   2 * time.Second,
+		}
+		conn, _, _, err := d.Dial(context.Background(), raw)
+		if conn != nil {
+			conn.Close()
+		}
+		select {
+		case <-done:
+		case <-time.After(3 * time.Second):
+		}
+		after := "-"
+		if cfg != nil {
+			after = hx([]byte(cfg.ServerName))
+		}
+		u, uerr := url.ParseRequestURI(raw)
+		uhost := "-"
+		if uerr == nil {
+			uhost = hx([]byte(u.Host))
+		}
+		return fmt.Sprintf("%s addr=%s sni=%s cfgafter=%s uhost=%s", b2s(err != nil), addr, sni, after, uhost)
 	}
 	register("C10", genC10)
 }
@@ -368,6 +420,14 @@ func genC10(tier string, r *rng) {
 		"wss://[2001:db8::1]/x", "wss://[2001:db8::1]:444/x", "http://example.com/", "example.com/x", "ws://user:pw@example.com/p", "wss://user@example.com:1/p", "ws://example.com:/x",
 		"WS://example.com/x", "ws:///x", "ws://127.0.0.1/x", "wss://127.0.0.1:1/x"} {
 		run("dial " + hx([]byte(u)))
+	}
+	// the TLS session of a wss URL is for that URL's host, whatever was dialed before (default configuration,
+	// a configuration without a name, a configuration with one)
+	hosts := []string{"first.example", "second.example:8443", "third.example", "first.example", "a.b.c.example:1", "second.example"}
+	for _, mode := range []string{"nil", "empty", "named:" + hx([]byte("pinned.example")), "nil"} {
+		for _, h := range hosts {
+			run("dialtls " + hx([]byte("wss://"+h+"/chat")) + " " + mode)
+		}
 	}
 }
 
